@@ -15,11 +15,12 @@ run "into_inner without wait_for_readers" lib.rs '        // To pay all the debt
 run "rcu returns even if not swapped" lib.rs 'if swapped {' 'if swapped || true {' C06 C14
 run "fallback keeps the debt" strategy/hybrid.rs 'Self::from_inner(unsafe { Self::new(candidate, Some(debt)).into_inner() })' 'unsafe { Self::new(candidate, Some(debt)) }' C02 C13 C01
 run "store leaks the old value" lib.rs 'drop(self.swap(val));' 'mem::forget(self.swap(val));' C02 C04 C14
-run "check_cooldown ignores active_writers" debt/list.rs 'if self.active_writers.load(Relaxed) == 0 {' 'if self.active_writers.load(Relaxed) == 0 || true {' C11 C01
+run "check_cooldown ignores active_writers" debt/list.rs 'if self.active_writers.load(SeqCst) == 0 {' 'if self.active_writers.load(SeqCst) == 0 || true {' C11 C01
 run "Node::get never re-uses" debt/list.rs '.compare_exchange(NODE_UNUSED, NODE_USED, SeqCst, Relaxed)' '.compare_exchange(7, NODE_USED, SeqCst, Relaxed)' C11
 run "LocalNode::drop does not release" debt/list.rs 'impl Drop for LocalNode {
     fn drop(&mut self) {
         if let Some(node) = self.node.get() {
+            // Release - syncing writes/ownership of this Node
             node.start_cooldown();' 'impl Drop for LocalNode {
     fn drop(&mut self) {
         if let Some(node) = self.node.get() {
